@@ -40,6 +40,10 @@ pub struct SvcConfig {
     /// hand the service pre-created sockets (ListenConfig::FromSockets, loopback, port 0) instead of
     /// addresses; the IP mode must be derived from which sockets exist
     pub from_sockets: bool,
+    /// pad the local record (with a custom field) to exactly this many bytes (<= 300)
+    pub local_record_size: Option<usize>,
+    /// advertise (and listen on) this IPv4 UDP port instead of the default one
+    pub local_port4: Option<u16>,
 }
 
 impl Default for SvcConfig {
@@ -59,6 +63,8 @@ impl Default for SvcConfig {
             incoming_bucket_limit: None,
             ban_duration: None,
             from_sockets: false,
+            local_record_size: None,
+            local_port4: None,
         }
     }
 }
@@ -168,7 +174,10 @@ pub fn shaped_addr(key_idx: u32, shape: Shape, v6: bool) -> Option<SocketAddr> {
 impl Svc {
     pub async fn new(cfg: SvcConfig) -> Svc {
         let key = keys::key(cfg.key_idx);
-        let a4 = svc_addr4(cfg.key_idx);
+        let mut a4 = svc_addr4(cfg.key_idx);
+        if let Some(p) = cfg.local_port4 {
+            a4.set_port(p);
+        }
         let a6 = svc_addr6(cfg.key_idx);
         let (listen, enr) = {
             let mut b = Enr::builder();
@@ -195,7 +204,23 @@ impl Svc {
                     ListenConfig::DualStack { ipv4: ip4, ipv4_port: p4, ipv6: ip6, ipv6_port: p6 }
                 }
             };
-            (listen, b.build(&key).expect("local record"))
+            let mut e = b.build(&key).expect("local record");
+            if let Some(target) = cfg.local_record_size {
+                // grow a custom field until the record has exactly the wanted size (if reachable)
+                let mut pad = target.min(300).saturating_sub(e.size());
+                loop {
+                    let mut t = e.clone();
+                    if t.insert("pad", &vec![0xEEu8; pad].as_slice(), &key).is_ok() && t.size() <= target.min(300) {
+                        e = t;
+                        break;
+                    }
+                    if pad == 0 {
+                        break;
+                    }
+                    pad -= 1;
+                }
+            }
+            (listen, e)
         };
         let listen = if cfg.from_sockets {
             let v4 = match cfg.mode {
